@@ -68,12 +68,12 @@ def frame_seeds(rng, n_edge=5):
             ang = rng.uniform(0, 2 * math.pi)
             out.append((lon + eps * math.cos(ang) / max(0.05, math.cos(math.radians(lat))), max(-90.0, min(90.0, lat + eps * math.sin(ang)))))
     for lat in (90.0, -90.0):
-        for lon in (0.0, 93.0, -87.0, 180.0, -180.0, 21.0, -159.0):
+        for lon in (0.0, 93.0, -87.0, 180.0, -180.0, 21.0, -159.0, 87.0, 86.9, 87.1, -93.0):
             out.append((lon, lat))
             for eps in (1e-9, 1e-7, 1e-5, 1e-3, 0.05):
                 out.append((lon, lat - eps if lat > 0 else lat + eps))
-    # antimeridian
-    for lat in (-80, -45, -10, 0, 33, 60, 85):
-        for lon in (180.0, -180.0, 179.9999999, -179.9999999, 179.5, -179.5):
+    # the antimeridian, and the meridian 87 E where the library's own longitudes wrap (theta = 180 degrees - 93)
+    for lat in (-89.995, -89.9, -80, -45, -10, 0, 33, 60, 85, 89.9, 89.993, 89.9995):
+        for lon in (180.0, -180.0, 179.9999999, -179.9999999, 179.5, -179.5, 87.0, 86.9999999, 87.0000001, 86.5, 87.5):
             out.append((lon, float(lat)))
     return out
